@@ -84,6 +84,29 @@ func runC29(c *Ctx) {
 		}
 		return out
 	}
+	// the per-variant rules below read one return per variant case; an evaluator that merges its cases into a single
+	// result variable, or moves them into helpers, is a different shape that these rules were not derived for
+	{
+		nRet := 0
+		for _, b := range ev.Blocks {
+			if _, ok := b.Instrs[len(b.Instrs)-1].(*ssa.Return); ok {
+				nRet++
+			}
+		}
+		var helpers []string
+		for _, ci := range allCalls(ev) {
+			if h := samePkgHelper(ev, ci.Common()); h != nil && h != ev && h.Parent() == nil {
+				for _, cj := range allCalls(h) {
+					if cj.Common().StaticCallee() == ev {
+						helpers = append(helpers, h.Name())
+					}
+				}
+			}
+		}
+		if nRet < 4 || len(helpers) > 0 {
+			c.Undecided("%s: the evaluator is not in the one-return-per-variant form (%d returns, sub-script evaluation in helpers %v); the per-variant rules are intraprocedural and were not re-derived for this shape", ssaFuncKey(ev), nRet, helpers)
+		}
+	}
 	// nil item / default → false
 	{
 		okNil := false
